@@ -410,13 +410,17 @@ func runC08(c *an.Ctx) {
 		Dom:     an.Domain{"len(p0)": an.Ints(0, 1, 2), "p0[0].Option()": an.Ints(codeVals...), "p0[1].Option()": an.Ints(nsid, dnsInt("EDNS0PADDING"))},
 		MaxRuns: 200,
 		Expect: func(f an.Features, o an.AOutcome) string {
-			want := "nil"
+			var kept []string
 			n := f.I("len(p0)")
 			for i := int64(0); i < n; i++ {
 				cd := f.I(fmt.Sprintf("p0[%d].Option()", i))
 				if cd == nsid || cd == expire {
-					want = fmt.Sprintf("builtin.append(%s, [p0[%d]])", want, i)
+					kept = append(kept, fmt.Sprintf("p0[%d]", i))
 				}
+			}
+			want := "nil"
+			if len(kept) > 0 {
+				want = "[" + strings.Join(kept, ", ") + "]"
 			}
 			if o.RetString() == want {
 				return ""
